@@ -240,6 +240,12 @@ class Run:
             samples=self.samples or [dict(obligation=o) for o in self.obligations[:5]],
             breaks=self.breaks,
         )
+        # keep the schema's typed keys typed whatever a harness stored under them (a harness bug must not make the
+        # evidence file invalid): non-conforming values are kept under '<key>_detail'
+        for k, typ in (('exhaustive', bool), ('states', int), ('transitions', int), ('programs', int),
+                       ('traces_validated_against_impl', int), ('disagreements_checked', int), ('explanation', str)):
+            if k in cov and (not isinstance(cov[k], typ) or (typ is int and isinstance(cov[k], bool))):
+                cov[k + '_detail'] = cov.pop(k)
         ev = dict(property_id=self.pid, tier=self.tier, seed=self.seed, level='proof',
                   coverage=cov, assumptions=self.assumptions + self.notes,
                   wall_s=round(wall, 2), violations=nviol)
